@@ -62,13 +62,13 @@ Proof. intros n cc code []. Qed.
 Definition kfn_ok (G : kctx) (ps : list str) (body : list stmt) (pk : list kind) (r : kind) : Prop :=
   pk = map (pkind body) ps /\ NoDup ps /\ forallb src_nameb ps = true /\ map fst G = free_vars ps body /\
   (r = KN \/ last_ret body = true) /\
-  exists B' rets, kblock (Some (pk, r)) (rev (combine ps pk)) G body = Some (B', rets) /\ (forall k, In k rets -> k = r).
+  exists B' rets, kblock (Some (pk, r)) false (rev (combine ps pk)) G body = Some (B', rets) /\ (forall k, In k rets -> k = r).
 
 Definition clos_ok (b : cinj) (pk : list kind) (r : kind) (ps : list str) (body : list stmt) (cenv : list scope)
            (loc : str) (cb : option (list (str * N))) : Prop :=
   exists G d lr k,
     kfn_ok G ps body pk r /\
-    loc = fn_name path (k + length (snd (bc path (S d) lr k body))) /\
+    loc = fn_name path (k + length (snd (bc path (S d) lr None k body))) /\
     installed (snd (ec path d lr k (EFn ps body))) /\
     forall x kx, In (x, kx) G -> uname0 x /\ exists c c', lookup_scopes x cenv = Some c /\ cbget cb x = Some c' /\ b c c' kx.
 
@@ -439,6 +439,35 @@ Proof.
     rewrite assoc_del_other by exact Hne. rewrite (Hvs y Hy Hne). auto.
   - exact (NS_undeclare _ _ _ H7).
   - apply (nd_top f fs); assumption.
+Qed.
+(* the context of the activation is recovered from the cells its names have (after a `break` / `continue` has popped
+   the block frames) *)
+Lemma Cl_weaken : forall b B env s g, Cl b B env s g -> Cl b [] env s g.
+Proof. intros b B env s g [H1 H2 H3 H4 H5 H6 H7 H8 H9 H10]. constructor; try assumption. intros x k E. discriminate E. Qed.
+Lemma Cl_B_of : forall b B env s g, Cl b [] env s g ->
+  (forall x k, assoc x B = Some k -> uname0 x /\ exists c c', lookup_scopes x (locals env) = Some c /\ b c c' k) ->
+  Cl b B env s g.
+Proof.
+  intros b B env s g [H1 H2 H3 H4 H5 H6 H7 H8 H9 H10] HB. constructor; try assumption.
+  intros x k E. destruct (HB x k E) as (Hx & c & c' & A1 & A2). split; [exact Hx|]. exists c, c'. split; [exact A1|]. split; [|exact A2].
+  pose proof (Rfr2_look _ _ _ H2 x Hx) as Hl. rewrite A1 in Hl. destruct (find_in_function x (frames g)) as [c''|]; [|contradiction].
+  destruct Hl as [k' Hk']. destruct (proj2 H1 _ _ _ _ _ _ Hk' A2) as [Hiff _]. f_equal. apply Hiff. reflexivity.
+Qed.
+(* m block frames are popped at once *)
+Lemma Cl_popn : forall m b B env s g, Cl b B env s g -> m < length (locals env) ->
+  exists g', pop_frames m g = Some g' /\ Cl b [] (popn m env) s g' /\ frames g' = skipn m (frames g) /\
+             cells g' = cells g /\ out g' = out g.
+Proof.
+  induction m as [|m IH]; intros b B env s g HC Hm.
+  - exists g. split; [reflexivity|]. split; [|auto]. apply Cl_weaken in HC. destruct env. exact HC.
+  - destruct (locals env) as [|sc l] eqn:El; [cbn in Hm; lia|]. destruct l as [|sc' l']; [cbn in Hm; lia|].
+    destruct (frames g) as [|f fs] eqn:Ef; [exact (False_ind _ (proj2 (Rfr2_ne _ _ _ (cl_fr _ _ _ _ _ HC)) Ef))|].
+    pose proof (Cl_pop b B [] env s g sc (sc' :: l') f fs HC El ltac:(discriminate) Ef ltac:(intros x k E; discriminate E)) as HC1.
+    destruct (IH b [] (pop_scope env) s (with_frames g fs) HC1 ltac:(cbn [pop_scope locals]; rewrite El; cbn [tl length] in *; lia))
+      as (g' & E1 & HC' & F & C & O).
+    exists g'. split; [cbn [pop_frames]; unfold pop_frame; rewrite Ef; exact E1|]. split.
+    + replace (popn (S m) env) with (popn m (pop_scope env)); [exact HC'|]. unfold popn, pop_scope. cbn [locals captured cur]. rewrite El. reflexivity.
+    + split; [rewrite F; reflexivity|auto].
 Qed.
 End Act.
 End Rel.
